@@ -112,6 +112,32 @@ pub fn wh<D, T>(deps: &D, t: T) -> u64 where D: HasId, T: Into<u64> + Copy { rt:
 }
 '''
     progs.append(Program('c03_life', 'lifetimes, const generics, borrowed returns, where-bounded generic', src, [h], ['C03']))
+    # where-clause predicates that relate lifetime parameters (they must stay with the lifetimes, on the method): named-generic,
+    # `impl Trait`, no_deps and module dependencies
+    src = PRELUDE + '''
+#[::entrait::entrait(pub Outl)]
+pub fn outl<'a, 'b, D: HasId>(deps: &D, x: &'a u32, y: &'b u32) -> &'b u32 where 'a: 'b { if deps.id() > *y { x } else { y } }
+#[::entrait::entrait(pub Outl2)]
+pub fn outl2<'a, 'b>(deps: &impl HasId, x: &'a u32, y: &'b u32) -> &'b u32 where 'a: 'b { if deps.id() > *y { x } else { y } }
+#[::entrait::entrait(pub Outl3, no_deps)]
+pub fn outl3<'a, 'b>(x: &'a u32, y: &'b u32) -> &'b u32 where 'a: 'b { if *x > *y { x } else { y } }
+#[::entrait::entrait(pub OutlM)]
+pub mod outl_m {
+    use super::HasId;
+    pub fn outl4<'a, 'b, D: HasId>(deps: &D, x: &'a u32, y: &'b u32) -> &'b u32 where 'a: 'b { if deps.id() > *y { x } else { y } }
+}
+'''
+    h = 'c03_outlives_h'
+    src += harness_head(h) + '''    let app = Impl::new(App { id: kani::any(), tag: 0 });
+    let a: u32 = kani::any(); let b: u32 = kani::any();
+    assert!(rt::addr(app.outl(&a, &b)) == rt::addr(outl(&app, &a, &b)));
+    assert!(rt::addr(app.outl2(&a, &b)) == rt::addr(outl2(&app, &a, &b)));
+    assert!(rt::addr(app.outl3(&a, &b)) == rt::addr(outl3(&a, &b)));
+    assert!(rt::addr(app.outl4(&a, &b)) == rt::addr(outl_m::outl4(&app, &a, &b)));
+    kani::cover!(true);
+}
+'''
+    progs.append(Program('c03_outlives', "where-clause lifetime predicates ('a: 'b) with named-generic / impl Trait / no_deps / module dependencies", src, [h], ['C03']))
     return progs
 
 
@@ -271,6 +297,73 @@ def c10_corpus(tier, seed):
     return P_
 
 
+
+# ---------------------------------------------------------------------------
+# C11: the unimock wiring compiles (rustc-decided; Kani cannot build the unimock runtime)
+# ---------------------------------------------------------------------------
+
+def c11_corpus(tier, seed):
+    """compile-only, unimock feature on, cfg(test): every un-mock call `f(self, <trait method parameter names>)` that unimock
+    generates from the attribute arguments must type-check against the original function. Dependencies are entraited leaf traits
+    (mockable themselves) or unbounded generics, as `Unimock` must satisfy them."""
+    progs = []
+    k = 0
+    leaf = '''
+#[::entrait::entrait(pub Leaf, mock_api = LeafMock)]
+pub fn leaf<D>(deps: &D, q1: u32) -> u32 { q1 ^ 5 }
+'''
+
+    def add(desc, body):
+        nonlocal k
+        k += 1
+        progs.append(Program(f'c11_{k:03d}', desc, PRELUDE + leaf + body, [], ['C11']))
+    add('generic deps, parameter spelled like the fn, mock_api', '''
+#[::entrait::entrait(pub Scale, mock_api = ScaleMock)]
+pub fn scale(deps: &impl Leaf, scale: u32, plus: u32) -> u32 { deps.leaf(scale).wrapping_add(plus) }
+''')
+    add('no_deps, parameter spelled like the fn, mock_api', '''
+#[::entrait::entrait(pub Offset, no_deps, mock_api = OffsetMock)]
+pub fn offset(offset: u32, minus: u32) -> u32 { offset.wrapping_sub(minus) }
+''')
+    add('patterns (tuple, wildcard, tuple struct) with mock_api, generic and no_deps', '''
+#[::entrait::entrait(pub Pat1, mock_api = Pat1Mock)]
+pub fn pat1(deps: &impl Leaf, (a, b): (u32, u32), _: u8, N(c): N) -> u32 { deps.leaf(a) ^ b ^ c }
+#[::entrait::entrait(pub Pat2, no_deps, mock_api = Pat2Mock)]
+pub fn pat2((a, b): (u32, u32), _: u8, pat2: u32) -> u32 { a ^ b ^ pat2 }
+''')
+    add('module with mock_api: several fns, one parameter spelled like its fn, async', '''
+#[::entrait::entrait(pub Arith, mock_api = ArithMock)]
+pub mod arith {
+    use super::*;
+    pub fn scaled(deps: &impl Leaf, scaled: u32) -> u32 { deps.leaf(scaled) }
+    pub fn sub<D: Leaf>(deps: &D, q1: u32, q0: u32) -> u32 { q1.wrapping_sub(q0) ^ deps.leaf(1) }
+    pub async fn later(deps: &impl Leaf, q1: u32) -> u32 { q1 ^ deps.leaf(2) }
+}
+''')
+    add('module with no_deps and mock_api', '''
+#[::entrait::entrait(pub Pure, no_deps, mock_api = PureMock)]
+pub mod pure_fns {
+    pub fn sub(q1: u32, q0: u32) -> u32 { q1.wrapping_sub(q0) }
+    pub fn twice(twice: u32) -> u32 { twice.wrapping_mul(2) }
+}
+''')
+    add('concrete dependency with mock_api; by-value generic deps; borrowed return', '''
+#[::entrait::entrait(pub Conc, mock_api = ConcMock)]
+pub fn conc(deps: &Cfg, q1: u32) -> u32 { deps.id ^ q1 }
+#[::entrait::entrait(pub ByVal, mock_api = ByValMock)]
+pub fn by_val<D: Leaf>(deps: D, q1: u32) -> u32 { deps.leaf(q1) }
+#[::entrait::entrait(pub Borrowing, mock_api = BorrowingMock)]
+pub fn borrowing<'a>(deps: &'a impl Leaf, q1: &'a u32) -> &'a u32 { q1 }
+''')
+    add('entraited trait with and without mock_api, delegate_by = ref', '''
+#[::entrait::entrait(mock_api = TrMock)]
+pub trait Tr1 { fn m1(&self, q1: u32, q0: u32) -> u32; }
+#[::entrait::entrait(delegate_by = ref)]
+pub trait Tr2: 'static { fn m2(&self, m2: u32) -> u32; }
+''')
+    return progs
+
+
 # ---------------------------------------------------------------------------
 # C12: Send by default, ?Send honoured, exact Output; C14: allocation counter
 # ---------------------------------------------------------------------------
@@ -400,17 +493,23 @@ pub async fn a2<D>(deps: &D, x: u32) -> u32 { rt::YieldOnce(false).await; x ^ 9 
 pub async fn al<'a, 'b, D>(deps: &'a D, h: &'a u32, i: &'b u32) -> &'a u32 { rt::YieldOnce(false).await; h }
 #[::entrait::entrait(pub IT)]
 pub fn it<D>(deps: &D, n: u32) -> impl Iterator<Item = u32> { (0..n).map(|x| x.wrapping_mul(2)) }
+#[::entrait::entrait(pub A3)]
+pub async fn a3(deps: &(impl A2 + L3), x: u32) -> u32 { deps.a2(deps.l3(x)).await }
+#[::entrait::entrait(pub A4)]
+pub async fn a4<D>(deps: &D, x: u32) -> u32 where D: A2, D: L3 { deps.a2(deps.l3(x)).await ^ 1 }
 #[::entrait::entrait(pub MM)]
 pub mod mm { use super::*; pub fn m1<D>(deps: &D, x: u32) -> u32 { x.wrapping_add(1) } pub async fn m2<D>(deps: &D, x: u32) -> u32 { rt::YieldOnce(false).await; x.wrapping_add(2) } }
 #[::entrait::entrait]
-pub trait TT { fn t1(&self, x: u32) -> u32; async fn t2(&self, x: u32) -> u32; }
+pub trait TT { fn t1(&self, x: u32) -> u32; async fn t2(&self, x: u32) -> u32; async fn t3<'a>(&self, h: &'a u32, i: &'a u32) -> &'a u32; }
 pub struct Prov;
-impl TT for Prov { fn t1(&self, x: u32) -> u32 { x.wrapping_add(5) } async fn t2(&self, x: u32) -> u32 { rt::YieldOnce(false).await; x.wrapping_add(6) } }
+impl TT for Prov { fn t1(&self, x: u32) -> u32 { x.wrapping_add(5) } async fn t2(&self, x: u32) -> u32 { rt::YieldOnce(false).await; x.wrapping_add(6) }
+    async fn t3<'a>(&self, h: &'a u32, i: &'a u32) -> &'a u32 { rt::YieldOnce(false).await; if *h > *i { h } else { i } } }
 #[::entrait::entrait(pub RImpl, delegate_by = DelegateR)]
-pub trait R { fn r1(&self, x: u32) -> u32; async fn r2(&self, x: u32) -> u32; }
+pub trait R { fn r1(&self, x: u32) -> u32; async fn r2(&self, x: u32) -> u32; async fn r3<'a>(&self, h: &'a u32) -> &'a u32; }
 pub struct TA;
 #[::entrait::entrait]
-impl RImpl for TA { pub fn r1<D>(deps: &D, x: u32) -> u32 { x.wrapping_add(7) } pub async fn r2<D>(deps: &D, x: u32) -> u32 { rt::YieldOnce(false).await; x.wrapping_add(8) } }
+impl RImpl for TA { pub fn r1<D>(deps: &D, x: u32) -> u32 { x.wrapping_add(7) } pub async fn r2<D>(deps: &D, x: u32) -> u32 { rt::YieldOnce(false).await; x.wrapping_add(8) }
+    pub async fn r3<'a, D>(deps: &D, h: &'a u32) -> &'a u32 { rt::YieldOnce(false).await; h } }
 impl DelegateR<Self> for App { type Target = TA; }
 // positive control: this one does allocate
 #[::entrait::entrait(pub BX)]
@@ -432,6 +531,9 @@ pub fn bx<D>(deps: &D, x: u32) -> u32 { *Box::new(x) }
     harness('c14_async_chain', pair('rt::block_on(a1(&app, x))', 'rt::block_on(app.a1(x))'))
     harness('c14_async_lifetimes', '    let i: u32 = kani::any();\n' + pair('*rt::block_on(al(&app, &x, &i))', '*rt::block_on(app.al(&x, &i))'))
     harness('c14_impl_trait_return', '    kani::assume(x < 3);\n' + pair('it(&app, x).count()', 'app.it(x).count()').replace('#[kani::unwind(4)]', ''))
+    harness('c14_fan_in', pair('(rt::block_on(a3(&app, x)), rt::block_on(a4(&app, x)))', '(rt::block_on(app.a3(x)), rt::block_on(app.a4(x)))'))
+    harness('c14_trait_lifetimes', '    let p = Impl::new(Prov); let i: u32 = kani::any();\n'
+            + pair('(*rt::block_on(Prov.t3(&x, &i)), *rt::block_on(TA::r3(&app, &x)))', '(*rt::block_on(p.t3(&x, &i)), *rt::block_on(app.r3(&x)))'))
     harness('c14_module', pair('(mm::m1(&app, x), rt::block_on(mm::m2(&app, x)))', '(app.m1(x), rt::block_on(app.m2(x)))'))
     src += ''
     harness('c14_trait', '    let p = Impl::new(Prov);\n' + pair('(Prov.t1(x), rt::block_on(Prov.t2(x)))', '(p.t1(x), rt::block_on(p.t2(x)))'))
@@ -441,7 +543,7 @@ pub fn bx<D>(deps: &D, x: u32) -> u32 { *Box::new(x) }
             'fn c14_control() {\n    let app = Impl::new(App { id: 0, tag: 0 });\n    let a0 = allocs(); let v = app.bx(kani::any()); let a1 = allocs();\n'
             '    assert!(a1 - a0 == 1, "positive control: the allocation counter observes Box::new");\n    kani::cover!(true);\n}\n')
     hs.append('c14_control')
-    return [Program('c14_001', 'allocation counts: sync/async chains, lifetimes, impl Trait return, module, entraited trait, static inversion; control', src, hs, ['C14'])]
+    return [Program('c14_001', 'allocation counts: sync/async chains, lifetimes, fan-in deps, impl Trait return, module, entraited trait (also with method lifetimes), static inversion; control', src, hs, ['C14'])]
 
 
 # ---------------------------------------------------------------------------
